@@ -174,8 +174,9 @@ func searchIndex(p *binary.BinaryProtocol, idx int, elementWireType proto.WireTy
 			return p.Read, errNotFound
 		}
 		if cnt == idx {
-			// p.Read stays on the element's tag; the value starts after it
-			return p.Read + n, nil
+			// p.Read stays on the element's tag, which is also the address updateByteLen needs
+			// ([tag][length] of the element) when an edit below this element changes its size
+			return p.Read, nil
 		}
 		p.Read += n
 		if err := p.Skip(elementWireType, false); err != nil {
@@ -571,6 +572,7 @@ func (self *Value) updateByteLen(originLen int, address []int, isPacked bool, pa
 			if subLen == 0 {
 				// no need to change length
 				copy(buf[tagOffset:tagOffset+lenOffset], newBytes)
+				previousType = pathKindToType(pathType)
 				continue
 			}
 
@@ -601,14 +603,18 @@ func (self *Value) updateByteLen(originLen int, address []int, isPacked bool, pa
 			FreeBytesToPool(newBytes)
 		}
 
-		if pathType == PathStrKey || pathType == PathIntKey {
-			previousType = proto.MAP
-		} else if pathType == PathIndex {
-			previousType = proto.LIST
-		} else {
-			previousType = proto.MESSAGE
-		}
+		previousType = pathKindToType(pathType)
 	}
+}
+
+// pathKindToType tells which kind of container a path element addresses into.
+func pathKindToType(pathType PathType) proto.Type {
+	if pathType == PathStrKey || pathType == PathIntKey {
+		return proto.MAP
+	} else if pathType == PathIndex {
+		return proto.LIST
+	}
+	return proto.MESSAGE
 }
 
 // UnsetByPath searches longitudinally and unsets a sub value at the given path from the value.
